@@ -234,6 +234,11 @@ def ctor_post(kind):
             idv, actv, tgtv = a[2], a[3], a[4]
         if not shape or idv.k != 'int' or actv.k != 'int' or tgtv.k != 'int':
             return z3.BoolVal(False)
+        regs = [e for e in c.trace if e[0] == 'register']
+        watched = (len(regs) == 1 and len(regs[0]) > 1 and len(regs[0][1]) == 1 and regs[0][1][0] is c._params['register']
+                   and c.trace.index(regs[0]) < c.trace.index(s[0]))      # watch state set up (as asked) BEFORE the node exists
+        if not watched:
+            return z3.BoolVal(False)
         return z3.And(idv.z == nid.z, me.node_id == nid.z,                 # the fresh id, in the object and in the command
                       actv.z == ACT, tgtv.z == c.pre.target.node_id if False else tgtv.z == z3.Int('target.node_id'),
                       z3.If(ACT < 2, z3.BoolVal(bool(tgt_itself)), z3.BoolVal(bool(tgt_group))))
